@@ -13,7 +13,7 @@ from . import c07
 from .c07 import mk_alias, mk_class, mk_mod, mk_sym, num, ref, render
 
 THEOREMS = ["C08_outermost", "C08_scope_value", "C08_spelling_partial",
-            "C08_spec_spelling", "C08_spec_outermost", "C08_spelling_refuted", "C08_scope_refuted", "C08_example"]
+            "C08_spec_spelling", "C08_spec_outermost", "C08_apply_args_leaf", "C08_shift_is_sub", "C08_spelling_refuted", "C08_scope_refuted", "C08_example"]
 
 ATTR_POOL = ["start", "start", "min", "max", "nominal", "value", "value", "fixed"]
 
@@ -141,12 +141,7 @@ def gen_case(rng, shape=None):
         for _ in range(rng.choice([0, 1, 1, 2, 3])):
             path, leafname = rng.choice(targets)
             attr = rng.choice(ATTR_POOL)
-            if naming == "nested" and leafname == "y":
-                # NOT generated: modifications of the alias-typed leaf below a class that pymoca instantiated
-                # eagerly (nested class); beyond the recorded one-name IndexError shape the model does not
-                # mirror the re-instantiation there (see notes/C08.md)
-                continue
-            if rng.random() < 0.5 and any(t[1] == hot[0][0] for t in targets) and not (naming == "nested" and hot[0][0] == "y"):
+            if rng.random() < 0.5 and any(t[1] == hot[0][0] for t in targets):
                 leafname, attr = hot[0]
                 path = rng.choice([t for t in targets if t[1] == leafname])[0]
             if leafname in ("p", "g") and attr != "value":
